@@ -54,6 +54,10 @@ CHECKS = {
    text='Contracts of 0..6 (thorough 8) sectors x every index subset: honest free, raw wire orderings, duplicates, out-of-range, every abort point and a bad signature, each followed by the honest operation; append batches with unknown roots and aborts; all length-3/4 sequences over an append/free/abort menu; both contractors. After every attempt MetaRoot(stored roots)==committed root and count*SectorSize==Filesize; failed/abandoned attempts leave the host byte-identical (or, after the renter handed over a valid signature, completely committed); successes equal the list model; RPCSectorRoots returns the model over ranges.',
    note='synthetic sector roots; core proof code trusted.',
    technique='exhaustive input and abort-point enumeration against a list model on the real server', design='§4 C09'),
+ 'C10': dict(level='fault_enumeration', engine='rhpmc',
+   text='For each renter call (read x2, write, verify, sector roots, append, free, fund, replenish) against the real server: the host->renter byte stream of the honest exchange is recorded and the call repeated once per single deviation - every byte flipped (2/4 masks), the stream cut at every offset, a byte inserted, the trailing host signature replaced by a valid host signature over alternative revisions or by a foreign signature - plus hosts whose collaborators lie (contractor reporting other roots, sector store serving another sector/offset/length). A call that returns nil must satisfy the ground truth held by the harness (exact bytes, root of bytes sent, actual roots, new Merkle root = requested operation on the known roots, host signature valid, charge within the price table).',
+   note='single deviation per run; RPCLatestRevision not a binding claim; core proof verifiers trusted.',
+   technique='exhaustive single-fault enumeration over every byte of every response stream + lying-collaborator hosts, ground-truth oracle', design='§4 C10'),
  'C15': dict(level='model_checking', engine='rhpmc',
    text='Every sequence of a funding step plus 2 (thorough 3) operations from a 34-entry alphabet (fund at R-1/R/R+1, replenish accounts/pools, attach valid/wrong signer/expired, detach by account/pool/wrong key, reads over offsets{0,32,64}x lengths{32,64,128}, write, verify) on the real server with a real 4 MiB sector and both contractors; a double-entry ledger is rebuilt from the recorded Contractor/Sectors calls and compared with a reference model after every operation.',
    note='balances probed around the 64-byte read price; core validation/pricing trusted.',
